@@ -737,6 +737,20 @@ def _base(cls):
   return cls
 
 
+def _provider(cls, attr):
+  """Returns the first class in cls's MRO that defines the attribute."""
+  for base in cls.mro:
+    if isinstance(base, mixin.LazyMembers):
+      base.load_lazy_attribute(attr)
+    if (
+        isinstance(base, abstract.SimpleValue)
+        and attr in base.members
+        and base.members[attr].bindings
+    ):
+      return base
+  return None
+
+
 def _overrides(subcls, supercls, attr):
   """Check whether subcls_var overrides or newly defines the given attribute.
 
@@ -746,23 +760,14 @@ def _overrides(subcls, supercls, attr):
     attr: An attribute name.
 
   Returns:
-    True if subcls_var is a subclass of supercls_var and overrides or newly
-    defines the attribute. False otherwise.
+    True if subcls_var is a subclass of supercls_var and finds a different
+    implementation of the attribute than supercls_var does. False otherwise.
   """
   if subcls and supercls and supercls in subcls.mro:
     subcls = _base(subcls)
     supercls = _base(supercls)
-    for cls in subcls.mro:
-      if cls == supercls:
-        break
-      if isinstance(cls, mixin.LazyMembers):
-        cls.load_lazy_attribute(attr)
-      if (
-          isinstance(cls, abstract.SimpleValue)
-          and attr in cls.members
-          and cls.members[attr].bindings
-      ):
-        return True
+    provider = _provider(subcls, attr)
+    return provider is not None and provider != _provider(supercls, attr)
   return False
 
 
@@ -779,7 +784,9 @@ def _call_binop_on_bindings(node, name, xval, yval, ctx):
         [ctx.convert.unsolvable], [xval, yval], node
     )
   options = [(xval, yval, name)]
-  if rname:
+  if rname and xval.data.cls != yval.data.cls:
+    # Python does not try the reflected method if the operands have the same
+    # type.
     options.append((yval, xval, rname))
     if _overrides(yval.data.cls, xval.data.cls, rname):
       # If y is a subclass of x and defines its own reverse operator, then we
